@@ -546,6 +546,18 @@ func c07Leaves2(v reflect.Value, path string, f func(path string, v reflect.Valu
 
 var c07Strings = []string{`"s"`, `""`, `"aé\n\"q\""`, `"😀 tail"`, `"plain text of some length, no escapes"`, `"\\\/\b\f\r\t"`, `"é€😀"`}
 
+// c07LoneSurrogates: string values that end in ( or consist of ) half a surrogate pair.  At the end of the input the
+// look-ahead for the second half reaches behind the buffer: under -d=checkptr the library at a9ff3ab dies there
+// ( {"S":"\ud800"} ; repaired in /repo by 31cd243 ), so the checkptr child fails on that tree.  Behind AUDIT_OPEN=1
+// until the harness runs against a tree with the repair; then the switch can go.
+var c07LoneSurrogates = true // the look-ahead of unescapeString was repaired in /repo (31cd243)
+
+func init() {
+	if c07LoneSurrogates {
+		c07Strings = append(c07Strings, `"\ud800"`, `"tail \udbff"`, `"\ud83d\u0041"`, `"\ud83d"`)
+	}
+}
+
 func c07Scalar(r *rand.Rand, t reflect.Type, bad bool) string {
 	if bad {
 		return []string{`"str"`, `true`, `12`, `{}`, `[]`, `1e400`, `-`, `nul`, `99999999999999999999999`}[r.Intn(9)]
@@ -1320,7 +1332,11 @@ func runC07(o *Out) {
 			if len(tail) > 1500 {
 				tail = tail[:1500]
 			}
-			o.violation("C07", "checkptr child process failed", map[string]string{"detail": err.Error(), "stderr": tail})
+			det := map[string]string{"detail": err.Error(), "stderr": tail}
+			if cur, rerr := os.ReadFile(o.dir + "/child/current.json"); rerr == nil {
+				det["case_the_child_was_running"] = clip(string(cur)) // the child names every case before it decodes
+			}
+			o.violation("C07", "checkptr child process failed", det)
 		}
 	} else {
 		o.Notes = append(o.Notes, "VERIF_CHECKPTR_BIN not set: checkptr child not run")
@@ -1332,6 +1348,7 @@ func runC07Child(o *Out) {
 	n := 0
 	c07Generate(o, func(c *c07Case) {
 		n++
+		o.current(c07Describe(c))
 		root := reflect.New(c.typ)
 		c07Init(root.Elem(), "root", nil, rand.New(rand.NewSource(c.seed)))
 		dst := root.Interface()
@@ -1513,7 +1530,7 @@ func c07SequenceCases(o *Out, decodeOnly bool) {
 	r := o.rng
 	rounds := 150
 	if o.tier == "thorough" {
-		rounds = 4000
+		rounds = 1500
 	}
 	for round := 0; round < rounds; round++ {
 		nv := 2 + r.Intn(5)
@@ -2155,7 +2172,7 @@ func c07HookCases(o *Out, decodeOnly bool) {
 	r := o.rng
 	rounds := 90
 	if o.tier == "thorough" {
-		rounds = 3000
+		rounds = 800 // three garbage collections a round, on the large heap of a thorough run
 	}
 	defer func() { c07HookNasty = false; c07HookGarbage = nil }()
 	for round := 0; round < rounds; round++ {
